@@ -13,7 +13,7 @@ pub type HGeneric = DynSizedStructure<HeaderTagHeader>;
 
 pub fn load_err(e: LoadError) -> String {
     match e {
-        LoadError::Memory(m) => format!("ERR {:?}", m),
+        LoadError::Memory(m) => crate::dom_common::mem_err(m),
         LoadError::ChecksumMismatch => "ERR ChecksumMismatch".to_string(),
         LoadError::MagicNotFound => "ERR MagicNotFound".to_string(),
     }
